@@ -29,6 +29,22 @@ def harness(tier, seed):
                     m[i, j] = rng.randint(max(1, mx // 2), mx)
                     if mode != "asym":
                         m[j, i] = m[i, j]
+        if rep % 4 == 3 and n >= 3:
+            # different cities at distance zero (as in br17, rbg*): a tour may be shorter than its number of cities
+            for _z in range(n):
+                a = rng.randrange(n)
+                b = (a + 1 + rng.randrange(n - 1)) % n
+                m[a, b] = 0
+                if mode != "asym":
+                    m[b, a] = 0
+            for i in range(n):          # every row keeps a positive entry
+                if m[i].max() == 0:
+                    j = (i + 1) % n
+                    m[i, j] = 1
+                    if mode != "asym":
+                        m[j, i] = 1
+            if mx > 1 and rng.random() < 0.5:
+                m = np.minimum(m, 1)     # only zeros and ones
         if mode == "nearly":      # asymmetric in one pair by one unit (relative difference far below 1e-5 for large values)
             a = rng.randrange(n)
             b = (a + 1 + rng.randrange(n - 1)) % n
